@@ -103,32 +103,37 @@ fn @name@() {
             functions=["SubRule::match_stress", "Syllable::apply_syll_mods", "ModKind::as_bool", "Alpha::as_binary", "HashMap::insert/get (real)"],
             symbolic="stress (3), tone, one bundle", shape="%%:[%sα%s] > [%sα%s]" % ("-" if inv_ else "", tag.replace("_inv", ""), "-" if inv_ else "", tag.replace("_inv", "")), unwind=unwind, unwindset=UNWINDSET, stubs=STUBS, cap_s=2400, weight=4))
 
-    # ---------------------------------------------------------------- suprasegmental alphas: length
-    for L in ((2,) if tier == "quick" else (1, 2, 3)):
-        for (tag, arr) in [("long", "[Some(k), None]"), ("overlong", "[None, Some(k)]")]:
-            nm = "c07_supra_alpha_roundtrip_%s_%d" % (tag, L)
-            segs = ", ".join(["x"] + ["a"] * L + ["y"])
-            hs.append(G.H(nm, "supra-alpha-roundtrip", "subrule", G.T(HDR + """
+    # ---------------------------------------------------------------- suprasegmental alphas: length (capture side)
+    # The full round trip `[αlong] > [αlong]` (match_seg_length, then apply_supras reading α back) ran past 40 min / 10 GB:
+    # the value read back from the map is symbolic to the symbolic executor, so both the lengthening and the shortening arm
+    # of apply_supras are explored on the VecDeque and merged. What is decided instead is the capture: the real matcher
+    # binds exactly the boolean that the same modifier, used as a binary one, would need in order to reproduce the length
+    # (the write-back of a *binary* length modifier is C05's set-length family).
+    len_shapes = [(2, "overlong", False), (2, "long", False), (3, "overlong", True), (1, "long", True)] if tier == "quick" else [(L, tag, iv) for L in (1, 2, 3) for tag in ("long", "overlong") for iv in (False, True)]
+    for (L, tag, iv) in len_shapes:
+        nm = "c07_supra_alpha_capture_%s_%d%s" % (tag, L, "_inv" if iv else "")
+        segs = ", ".join(["x"] + ["a"] * L + ["y"])
+        arr = "[Some(k), None]" if tag == "long" else "[None, Some(k)]"
+        truth = ("%d > 1" % L) if tag == "long" else ("%d > 2" % L)
+        hs.append(G.H(nm, "supra-alpha-capture", "subrule", G.T(HDR + """
 fn @name@() {
-    // `[α@tag@] > [α@tag@]` on a segment of length @L@
-    let a = cseg(1, 0x90, 4, Some(0x2340)); let x = cseg(4, 0, 0, Some(0x8000)); let y = cseg(4, 0x84, 0, Some(0x4200));
-    let st = any_stress(); let tone: u16 = kani::any();
-    let mut w = word1(syll_of(&[@segs@], st, tone));
+    // `[@k@@tag@]` met for the first time on a segment of length @L@: α is bound so that re-applying it reproduces the length
+    let a = any_seg(); let x = any_seg(); let y = any_seg();
+    kani::assume(a != x && a != y);
+    let w = word1(syll_of(&[@segs@], any_stress(), kani::any()));
     let sub = mk_sub(RuleType::Substitution);
-    let k = ModKind::Alpha(AlphaMod::Alpha('α'));
+    let k = ModKind::Alpha(AlphaMod::@ctor@('α'));
     let arr: [Option<ModKind>; 2] = @arr@;
     match sub.match_seg_length(&w, &arr, &SegPos::new(0, 1)) { Ok(v) => assert!(v, "role=first-use-of-supra-alpha-matches"), Err(_) => assert!(false, "role=unexpected-error") }
-    let r = w.syllables[0].apply_supras(&sub.alphas, &SupraSegs { stress: [None, None], length: arr, tone: None }, 1, P);
-    match r { Ok(lc) => assert!(lc == 0, "role=length-alpha-roundtrip"), Err(_) => assert!(false, "role=unexpected-error") }
-    assert!(w.syllables[0].segments.len() == @L@ + 2, "role=length-alpha-roundtrip");
-    let mut i = 0;
-    while i < @L@ + 2 { assert!(w.syllables[0].segments[i] == [@segs@][i], "role=length-alpha-roundtrip-segments"); i += 1; }
-    assert!(w.syllables[0].stress == st && w.syllables[0].tone == tone, "role=supra-alpha-frame");
+    let got = match sub.alphas.borrow().get(&'α') { Some(Alpha::Supra(b)) => Some(*b), _ => None };
+    let is_set: bool = @truth@;
+    assert!(got == Some(if @iv@ { !is_set } else { is_set }), "role=length-alpha-captures-@tag@-value");
     kani::cover!(true);
     std::mem::forget(sub); std::mem::forget(w);
 }
-""", name=nm, tag=tag, L=L, segs=segs, arr=arr), shared=[G.SUBRULE_SHARED, CSEG], functions=["SubRule::match_seg_length", "Syllable::apply_supras", "ModKind::as_bool", "HashMap::insert/get (real)"],
-                symbolic="stress, tone (bundles concrete and pairwise distinct: with symbolic bundles the run length is symbolic and the harness times out)", shape="[x a*%d y], [α%s] > [α%s]" % (L, tag, tag), unwind=unwind, unwindset=UNWINDSET, stubs=STUBS, cap_s=2400, weight=6))
+""", name=nm, tag=tag, L=L, segs=segs, arr=arr, truth=truth, iv=str(iv).lower(), ctor="InvAlpha" if iv else "Alpha", k="-α" if iv else "α"), shared=[G.SUBRULE_SHARED],
+            functions=["SubRule::match_seg_length", "Word::seg_length_at", "HashMap::insert/get (real)"], symbolic="bundles a, x, y (a != neighbours), stress, tone",
+            shape="[x a*%d y], [%sα%s] captured" % (L, "-" if iv else "", tag), unwind=unwind, unwindset=UNWINDSET, stubs=STUBS, cap_s=2400, weight=6))
 
     # ---------------------------------------------------------------- segment variables
     hs.append(G.H("c07_var_capture_context", "variable-capture", "subrule", G.T(HDR + """
@@ -276,6 +281,7 @@ fn c07_twin_reach() {
                    "feature alphas this run: %d shapes; node alphas: %d; suprasegmental alphas: stress x3 + pair, length shapes; segment variables: capture (context, input) and match" % (len(shapes), 3 if tier == "quick" else 8)],
         "outside": ["write-back of variables in substitution/insertion outputs (`X=1 .. > 1 ..`), capture of syllable variables and structures: inside whole-rule application (SubRule::substitution / insert), which does not finish under CBMC",
                     "arbitrary environments around the capturing rule (C03 covers environment selection separately)",
-                    "two alphas in one matrix (`[αstress, βsecstress]`): two inserts and two lookups in the real hashbrown map exceed 14 GB under CBMC"],
+                    "two alphas in one matrix (`[αstress, βsecstress]`): two inserts and two lookups in the real hashbrown map exceed 14 GB under CBMC",
+                    "the write-back half of length alphas (`[αlong]` in an output reading α back from the map): > 40 min / 10 GB; the capture half is decided (supra-alpha-capture), the binary write-back is C05"],
         "assumptions": ["std::hash::RandomState::new stubbed with fixed keys", "same_features/ref_feat reference reads in harness/common.rs"],
     }
